@@ -336,6 +336,9 @@ def _set_path(obj, path, val):
     obj[path[-1]] = val
 
 
+_SIDECAR: Dict[str, Any] = {"text": None}      # the sidecar the real writer put next to that snapshot
+
+
 def real_snapshot_body(workdir) -> dict:
     """a snapshot as the real writer produces it (GEL on, two observed edges, maintenance metadata)"""
     from ..turnrun import Session
@@ -352,7 +355,13 @@ def real_snapshot_body(workdir) -> dict:
         o = s.run({"graph": True, "maint": True})
         assert not o["raised"], o["raised"]
         with open(os.path.join(s.snapdir, "state_A.json")) as f:
-            return json.load(f)
+            body_ = json.load(f)
+        try:
+            with open(os.path.join(s.snapdir, "state_A.json.meta")) as f:
+                _SIDECAR["text"] = f.read()
+        except OSError:
+            _SIDECAR["text"] = None
+        return body_
     finally:
         shutil.rmtree(work, ignore_errors=True)
 
@@ -376,9 +385,14 @@ def semi_garbage_case(case) -> List[Tuple[str, str]]:
         os.makedirs(s.snapdir, exist_ok=True)
         with open(os.path.join(s.snapdir, "state_A.json"), "w") as f:
             json.dump(body, f)
+        if case.get("sidecar"):
+            # the writer's own sidecar of the undamaged snapshot is still lying next to the damaged body (a body rewritten by
+            # hand or by another tool): what the sidecar says vouches for nothing in the body
+            with open(os.path.join(s.snapdir, "state_A.json.meta"), "w") as f:
+                f.write(case["sidecar"])
         for turn in range(2):
             o = s.run({"graph": True, "maint": bool(case.get("maint", True))})
-            where = f"snapshot with {'.'.join(case['path'])} = {case['junk']!r}, turn {turn + 1}"
+            where = f"snapshot with {'.'.join(case['path'])} = {case['junk']!r}{' (genuine sidecar present)' if case.get('sidecar') else ''}, turn {turn + 1}"
             if o["raised"]:
                 return [("TurnCompletes", f"{where}: run_turn raised {o['raised']}")]
             if not o["log"] or o["log"][-1] != "turn":
@@ -479,6 +493,8 @@ def check(run) -> None:
     paths = _paths(body)
     sg_cases = [{"path": list(pth), "junk": j, "body": body, "workdir": run.workdir, "maint": (i + k) % 2 == 0}
                 for i, pth in enumerate(paths) for k, j in enumerate(JUNK) if not q or (i + k) % 2 == 0]
+    if _SIDECAR["text"]:
+        sg_cases += [dict(c_, sidecar=_SIDECAR["text"]) for c_ in sg_cases if c_["path"] and c_["path"][0] in ("gel", "graph")]
     run.extra["snapshot_subtrees_mutated"] = len(paths)
     for c, fails in zip(sg_cases, pmap(semi_garbage_case, sg_cases, chunk=4)):
         run.traces += 1
